@@ -1,7 +1,7 @@
 """C05 runtime correspondence check (see DESIGN.md)."""
 from . import rtprop
 
-THEOREMS = ['FlexVerif.bufferOp_start', 'FlexVerif.doWrap_start', 'FlexVerif.inputOp_start', 'FlexVerif.commonOp_start_frame', 'FlexVerif.runAction_start', 'FlexVerif.push_pop', 'FlexVerif.pop_underflow', 'FlexVerif.stack_lifo', 'FlexVerif.validate_sound']
+THEOREMS = ['FlexVerif.bufferOp_start', 'FlexVerif.doWrap_start', 'FlexVerif.inputOp_start', 'FlexVerif.commonOp_start_frame', 'FlexVerif.runAction_start', 'FlexVerif.runAlternatives_start', 'FlexVerif.lexCall_start', 'FlexVerif.runMain_start', 'FlexVerif.SafeScr_of_safeScrB', 'FlexVerif.push_pop', 'FlexVerif.pop_underflow', 'FlexVerif.stack_lifo', 'FlexVerif.validate_sound']
 
 
 def run(ctx):
